@@ -9,7 +9,7 @@ from ..wrun import run_worlds
 
 PROP = "C01"
 WEIGHTS = {"swap": 40, "swap_window": 14, "route": 16, "provide": 8, "withdraw": 4, "donate": 4,
-           "swap_malformed": 2, "provide_malformed": 0, "unauth": 0, "transfer": 0, "lp_transfer": 0,
+           "swap_malformed": 10, "provide_malformed": 0, "unauth": 0, "transfer": 0, "lp_transfer": 0,
            "route_bad": 1, "intent": 2}
 
 
@@ -67,7 +67,7 @@ def run_shard(acc, prop, tier, seed, shard, nshards, **kw):
         canary(acc, srv)
     finally:
         srv.close()
-    nw, steps = (10, (120, 220)) if tier == "quick" else (600, (120, 300))
+    nw, steps = (10, (120, 220)) if tier == "quick" else (320, (120, 300))
     run_worlds(acc, PROP, tier, seed, shard, nshards, lambda w, a: [monitors.C01(w, a)], WEIGHTS, nw, steps)
 
 
